@@ -355,8 +355,11 @@ def run(ctx):
             isinstance(x.ast, ast.Return)]
     first = None
     for x in rets:
-        g = cfg.guards(x)
-        if g and '_get_task_executions' in norm(g[0][0]) and g[0][1]:
+        if U.guard_match(cfg, x, 'self._get_task_executions(*___)', True) \
+                or U.guard_match(cfg, x, 'self._get_task_executions(___)',
+                                 True) or any(
+                    t_ and '_get_task_executions' in norm(a_)
+                    for a_, t_ in U.guard_atoms(cfg, x)):
             first = x
     r6.check(first is not None and norm(first.ast.value) == 'False',
              ctx.construct(st, extra='existing => not satisfied'),
@@ -367,10 +370,7 @@ def run(ctx):
         if isinstance(x, ast.Call) and U.call_name(x) == 'add' and \
                 isinstance(x.func.value, ast.Name):
             cn = cfg.node_of(x)
-            g = [norm(t) for (t, pol, _g) in cfg.guards(cn)
-                 if isinstance(t, ast.expr) and pol]
-            if any(U.phas(ast.parse(t), '__e.state == states.SUCCESS')
-                   for t in g):
+            if U.guard_match(cfg, cn, '__e.state == states.SUCCESS', True):
                 succ_sets.add(x.func.value.id)
     okr = any(isinstance(x, ast.Return) and any(
         U.phas(x.value, 'not (set(self.wf_spec.get_task_requires(__s)) - '
@@ -429,12 +429,9 @@ def _join_exits_pass(cfg, f, sd, wait_node):
                   follow_exc=False)
     for x in r:
         if x.kind == 'stmt' and isinstance(x.ast, ast.Return):
-            g = cfg.guards(x)
-            if not g:
-                return False
-            t, pol, _gn = g[0]
-            txt = norm(t)
-            if not (('get_join' in txt and txt.startswith('not ') and pol) or
-                    ('isinstance' in txt and txt.startswith('not ') and pol)):
+            ga = U.guard_atoms(cfg, x)
+            if not any(t_ is False and ('get_join' in norm(a_) or
+                                        'isinstance' in norm(a_))
+                       for a_, t_ in ga):
                 return False
     return True
